@@ -327,6 +327,10 @@ func arithExcluded(c Case, ns []refnum.Num, e expect, s shape) string {
 		if !exact {
 			return "expt-float"
 		}
+	case c.Op == "expt" && ns[0].Kind == "int" && ns[1].R.Sign() < 0 && h.ExclOn("expt-neg-int-float"):
+		// what is left of C05-F7 (C05-F9): an integer base with a negative exponent gives a double-float,
+		// pinned by TestExptFixnum (expt 8 -1) => 0.125
+		return "expt-neg-int-float"
 	case in(c.Op, "mod", "rem") && !ints(ns) && h.ExclOn("mod-rem-ratio-float"):
 		return "mod-rem-ratio-float"
 	}
@@ -401,9 +405,23 @@ func runArith(c Case) *h.Result {
 		return res
 	}
 	loose := h.ExclOn("result-not-canonical")
+	// what is left of C05-F1 (C05-F10): the bignum step of a binary - keeps a bignum that fits a fixnum
+	// (pinned by TestRandomBignum); only the type of the result of such a call is relaxed
+	looseSub := false
+	if c.Op == "-" && len(ns) >= 2 && h.ExclOn("sub-bignum-not-canonical") {
+		// by construction: some operand or intermediate difference is an integer outside int64
+		for _, n := range ns {
+			looseSub = looseSub || (n.Kind == "int" && !n.R.Num().IsInt64())
+		}
+		looseSub = looseSub || s.intermBig
+	}
 	for i, v := range e.vals {
 		w, g := refnum.Canon(v), sx.Typed(got[i])
 		if w == g {
+			continue
+		}
+		if looseSub && strings.HasPrefix(w, "fix:") && strings.HasPrefix(g, "big:") && refnum.Loose(w) == refnum.Loose(g) {
+			h.Excluded("sub-bignum-not-canonical")
 			continue
 		}
 		if loose && strings.HasPrefix(w, "fix:") && strings.HasPrefix(g, "big:") && refnum.Loose(w) == refnum.Loose(g) {
